@@ -143,7 +143,7 @@ def stepLine (w : World) (line : String) : World × String :=
     match i.toNat?, cid.toNat? with
     | some i, some cid =>
       match w.nodes[i]? with
-      | some n => ({ w with nodes := w.nodes.set! i (modConn n cid (fun c => { c with inMap := false })) }, "ok")
+      | some n => ({ w with nodes := w.nodes.set! i (n.dropConn cid) }, "ok")
       | none => bad
     | _, _ => bad
   | ["out", i, cid, "hs"] =>
